@@ -456,6 +456,12 @@ func (c *FnCtx) debugLookup(fr *frame, li *loopInfo, name string) (Val, bool) {
 	}
 	v := c.value(fr, best)
 	if bestAddr {
+		// a local array is used through its address (indexing, slicing)
+		if pt, ok := best.Type().Underlying().(*types.Pointer); ok && v.K == kPtr {
+			if _, isArr := pt.Elem().Underlying().(*types.Array); isArr {
+				return v, true
+			}
+		}
 		return Val{}, false
 	}
 	return v, true
